@@ -7,6 +7,7 @@ ListsAll     == {<<>>, <<"ascii">>, <<"nonascii", "sep">>, <<"empty", "allbytes"
 ControlsAll  == {"letter", "punct"}
 ModesAll     == {"bytes", "utf8", "utf16"}
 LogCfgsAll   == SUBSET {"all", "read", "send"}
+LogCfgsQuick == {{}, {"all"}, {"read"}, {"send"}, {"all", "read", "send"}}
 \* reduced alphabet for the whole-history configuration
 SmallPayloads == {"empty", "ascii", "nonascii"}
 SmallRead     == {"ascii", "nonascii"}
